@@ -186,3 +186,21 @@ def sampling(tier, rng, rep):
                         break
         rep.attempt("regular_polygon_runs", inp2, poly)
         rep.case(key=("poly", t), nontrivial=a > np.pi / 2)
+        if t % 3 == 0:
+            # the circumradius is a number, however it is packaged: Python int, NumPy integer, float32, 0-d array
+            r0 = int(rng.integers(1, 4))
+            want_side = np.arccosh(np.cosh(r0) ** 2 - np.sinh(r0) ** 2 * np.cos(2 * np.pi / m))
+            for tn, cv in (("int", int), ("np.int64", np.int64), ("np.float32", np.float32), ("array0d_int", lambda q: np.array(int(q))), ("float", float)):
+                inp3 = {"n_gon": m, "radius": r0, "radius_type": tn, "dimension": dim}
+
+                def poly_r():
+                    V = h.Polygon.regular_polygon(m, radius=cv(r0), dimension=dim).get_vertices()
+                    o = h.Point.get_origin(dim)
+                    dist = np.array([o.distance(V[i]) for i in range(m)], dtype=float)
+                    sides = np.array([V[i].distance(V[(i + 1) % m]) for i in range(m)], dtype=float)
+                    if not np.all(np.abs(dist - r0) <= 1e-5 * (1 + r0)):
+                        rep.fail("polygon_equal_radius", f"radius given as {tn}: distances {dist}", inp3)
+                    elif not np.all(np.abs(sides - want_side) <= 1e-5 * (1 + want_side)):
+                        rep.fail("polygon_equal_sides", f"radius given as {tn}: sides {sides} expected {want_side}", inp3)
+                rep.attempt("regular_polygon_runs", inp3, poly_r)
+                rep.case(key=("poly_radius_type", t, tn), nontrivial=tn != "float")
